@@ -259,6 +259,7 @@ theorem viaUnion_leaf {nb : Allow} {ext : DenExt} {S : Schema} (hS : SchemaOK nb
 /-- a `rust_decimal` value written to a decimal node -/
 theorem serDecimal_regular_sound {ext : Ext} (hext : ExtOK ext) (S : Schema) (scale prec : Nat)
     (repr : DecimalRepr) (d : Int × Nat) (s : SerState) (h : s.budget = none)
+    (hd128 : inI128 d.1 = true)
     (hok : (serDecimal ext (.regular scale repr) d s).1 = .ok ()) :
     ∃ u bytes, serDecimal ext (.regular scale repr) d s = (.ok (), { s with out := s.out ++ bytes }) ∧
       Dec S (.decimal scale prec repr) bytes (.decimal u) ∧
@@ -266,11 +267,11 @@ theorem serDecimal_regular_sound {ext : Ext} (hext : ExtOK ext) (S : Schema) (sc
   cases repr with
   | bytes =>
     obtain ⟨hsc, m, hl, hmin, he, hv⟩ :=
-      serDecimal_regular_bytes_canon ext scale d s h (hext.rescale d scale) hok
+      serDecimal_regular_bytes_canon ext scale d s h (hext.rescale d scale hd128) hok
     exact ⟨(ext.decRescale d scale).1, _, he, Dec.decimal_bytes hmin (by omega) hv,
       by simp [decimalOf, denExtOf, hsc]⟩
   | fixed nm size =>
-    obtain ⟨hsc, m, hl, he, hv⟩ := serDecimal_regular_fixed ext scale nm size d s h (hext.rescale d scale) hok
+    obtain ⟨hsc, m, hl, he, hv⟩ := serDecimal_regular_fixed ext scale nm size d s h (hext.rescale d scale hd128) hok
     exact ⟨(ext.decRescale d scale).1, _, he, Dec.decimal_fixed hl hv,
       by simp [decimalOf, denExtOf, hsc]⟩
 
@@ -512,7 +513,7 @@ theorem serStrAt_leaf (hext : ExtOK ext) {n : Node} (hnok : NodeOK nb S n)
     | none => simp [hp, SerM.fail] at hok
     | some d =>
       simp only [hp] at hok ⊢
-      obtain ⟨u, bytes, he, hd, hu⟩ := serDecimal_regular_sound hext S scale prec repr d s h hok
+      obtain ⟨u, bytes, he, hd, hu⟩ := serDecimal_regular_sound hext S scale prec repr d s h (hext.parse str d hp).1 hok
       refine ⟨.decimal u, bytes, he, hd, ?_⟩
       have hp' : (denExtOf ext).decParse str = some d := hp
       rcases hsv with rfl | ⟨c, rfl, rfl⟩ <;>
@@ -634,7 +635,7 @@ theorem serF64_sound (hext : ExtOK ext) (bits : BitVec 64) (hok : (serF64 ext S 
     | none => simp [hp, SerM.fail] at hok
     | some d =>
       simp only [hp] at hok ⊢
-      obtain ⟨u, bytes, he, hd, hu⟩ := serDecimal_regular_sound hext S scale prec repr d s h hok
+      obtain ⟨u, bytes, he, hd, hu⟩ := serDecimal_regular_sound hext S scale prec repr d s h (hext.fromF64 bits d hp).1 hok
       have hp' : (denExtOf ext).decFromF64 bits = some d := hp
       refine ⟨.decimal u, bytes, he, hd, ?_⟩
       simp only [denotesLeaf, hp']; exact decide_eq_true hu
